@@ -14,7 +14,7 @@ RULE = ("exhaustive: every profile over m <= 3 alternatives with <= 3 distinct b
         "soc (both rules) and soi (fallback; Bucklin must refuse), plus toc/toi/cat/wmd labels (both must refuse); "
         "random: m <= 8, <= 9 distinct ballots, multiplicities <= 50: shared first choices, first-place majorities "
         "(exact, one short, tie at n/2), rotations, single-alternative profiles, truncated ballots whose counts never "
-        "reach the quota. histories (550 quick / 7000 thorough): one instance object through the append API, both rules, repeated-ballot appends that flip the majority, rules again on the same object, judged on the current multiplicity table. non-trivial = >= 2 alternatives, >= 2 distinct ballots, some multiplicity > 1")
+        "reach the quota. histories (550 quick / 7000 thorough): one instance object through the append API, both rules, repeated-ballot appends that flip the majority, rules again on the same object, then in-place edits of the public multiplicity table + recompute_cardinality_param that keep num_voters / num_unique_orders / num_alternatives (voters moved between ballots, two multiplicities swapped) and the rules once more, judged on the current multiplicity table. non-trivial = >= 2 alternatives, >= 2 distinct ballots, some multiplicity > 1")
 EXHAUSTIVE = {"quick": "m<=3, n<=3 distinct ballots, multiplicities<=2, soc/soi (+ toc/toi for the guards)",
               "thorough": "m<=3, n<=3 distinct ballots, multiplicities<=3; m=4 soc with n<=2, multiplicities<=2"}
 TRUSTED = ["modelled (mirror): singlewinner.py fallback_voting_winner, bucklin_voting_winner, decorators.py; the level "
@@ -408,7 +408,7 @@ def shrink(c):
         return
     if c["op"] == "c14.hist":
         for c2 in c06.shrink_history(c):
-            if all(a[0] == 0 or all(rr < 2 for rr, _ in a[1]) for a in c2["payload"]):
+            if all(a[0] != 1 or all(rr < 2 for rr, _ in a[1]) for a in c2["payload"]):
                 yield c2
         return
     dt, alts, _, _, prof = c["payload"]
